@@ -352,6 +352,7 @@ class Exec:
                 self.triggers[(r.table.lower(), r.trigger_time.upper(), r.trigger_event.upper())] = r
         self.ufs: Dict[str, Any] = {}
         self.notes: List[str] = []
+        self.determinism_issues: List[Dict[str, Any]] = []
 
     # ---- entry points
     def new_state(self) -> St:
@@ -679,7 +680,7 @@ class Exec:
         gvars = [z3.Const(fresh('grp'), g.v.sort()) for g in gterms]
         gcond = z3.And(cond, *[z3.And(z3.Not(g.n), g.v == gv) for g, gv in zip(gterms, gvars)]) if gterms else cond
         prev = getattr(self, '_agg_ctx', None)
-        self._agg_ctx = {'scope': sc_in, 'kvars': kv, 'cond': gcond, 'records': [], 'grouped': bool(gterms)}
+        self._agg_ctx = {'scope': sc_in, 'kvars': kv, 'cond': gcond, 'records': [], 'grouped': bool(gterms), 'gvars': gvars}
         computed = {}
         order = []
         try:
@@ -779,11 +780,13 @@ class Exec:
         conds = []
         keyvars = []
         where_conj = self.conjuncts(where)
+        deferred_on = []
         for kind, item, on, _ in items:
             on_conj = self.conjuncts(on)
             if isinstance(item, A.TableRef):
                 alias = item.alias or item.name
                 if alias in aliases:
+                    deferred_on.extend(on_conj)  # the row is fixed by the caller: its ON conjuncts still constrain the others
                     continue
                 tab = st.db.tab(item.name)
                 key, fresh_k = self.pin_key(tab, alias, on_conj + (where_conj if kind != 'LEFT' else []), Scope(st, aliases, outer), None, None)
@@ -872,6 +875,7 @@ class Exec:
                 raise Undecided('FROM item %s' % type(item).__name__)
         sc = Scope(st, aliases, outer)
         conds.extend(truthy(self.ev(c, sc)) for c in where_conj)
+        conds.extend(truthy(self.ev(c, sc)) for c in deferred_on)
         return aliases, z3.And(*conds) if conds else z3.BoolVal(True), keyvars
 
     def pin_key(self, tab: Tab, alias: str, conj: List[Any], scope: Scope, derived_alias=None, derived=None):
@@ -968,6 +972,9 @@ class Exec:
         target = RowRef(tab, kvars)
         aliases, cond, extra = self.bind_from(node.tables, node.where, Scope(st), st, fixed={alias: target})
         affected = z3.And(tab.has(kvars), cond)
+        elim = []
+        if extra:
+            affected, extra, elim = eliminate_determined(affected, extra)
         if extra:
             affected = z3.Exists(extra, affected)
         sc = Scope(st, aliases)
@@ -984,6 +991,12 @@ class Exec:
                 v = self.ev(e, sc)
             if c in tab.pk:
                 raise Undecided('UPDATE of a primary-key column')
+            if elim:
+                v = SV(z3.substitute(v.n, *elim), z3.substitute(v.v, *elim))
+            if extra and (_mentions(v.v, extra) or _mentions(v.n, extra)):
+                # MySQL updates each row once, with an arbitrary one of several matching joined rows: not a function
+                self.determinism_issues.append({'table': tname, 'column': c, 'line': node.line, 'why': 'the SET value depends on a joined row that the join condition does not determine uniquely'})
+                v = fresh_sv('nondet_%s_%s' % (tname, c), tab.real[c])
             new_vals[c] = v
         # point update?
         pinned = self.point_key(affected, kvars)
@@ -1484,8 +1497,12 @@ class Exec:
             arg = None
             if not e.star and e.args:
                 arg = self.ev(e.args[0], actx['scope'])
-            sym = z3.Int(fresh('agg_%s' % name.lower()))
-            rec = {'func': name, 'arg': arg, 'symbol': sym, 'kvars': actx['kvars'], 'cond': actx['cond'], 'line': getattr(e, 'line', 0), 'expr': e.to_sql() if hasattr(e, 'to_sql') else name}
+            if actx['grouped'] and actx.get('gvars'):
+                fdecl = z3.Function(fresh('agg_%s' % name.lower()), *[g.sort() for g in actx['gvars']], z3.IntSort())
+                sym = fdecl(*actx['gvars'])
+            else:
+                sym = z3.Int(fresh('agg_%s' % name.lower()))
+            rec = {'func': name, 'arg': arg, 'symbol': sym, 'gvars': list(actx.get('gvars') or []), 'kvars': actx['kvars'], 'cond': actx['cond'], 'line': getattr(e, 'line', 0), 'expr': e.to_sql() if hasattr(e, 'to_sql') else name}
             actx['records'].append(rec)
             st.aggregates.append(rec)
             if name == 'COUNT':
@@ -1579,6 +1596,37 @@ class Exec:
 
     def e_Tuple(self, e, sc):
         raise Undecided('row constructor')
+
+
+def eliminate_determined(formula, evars):
+    """exists x. (x == t /\ phi)  ==>  phi[x := t]  for every existential x determined by an equality conjunct whose other
+    side does not mention the existentials.  Returns (formula', remaining existentials, substitutions)."""
+    subs = []
+    remaining = list(evars)
+    changed = True
+    while changed and remaining:
+        changed = False
+        conj = [_unwrap_truth(c) for c in core._flatten_and(z3.simplify(formula, elim_ite=False))]
+        for c in conj:
+            if not z3.is_eq(c):
+                continue
+            a, b = c.children()
+            hit = None
+            for x, y in ((a, b), (b, a)):
+                for ev in remaining:
+                    if x.eq(ev) and not _mentions(y, remaining):
+                        hit = (ev, y)
+                        break
+                if hit:
+                    break
+            if hit:
+                ev, y = hit
+                formula = z3.substitute(formula, (ev, y))
+                subs = [(k, z3.substitute(v, (ev, y))) for k, v in subs] + [(ev, y)]
+                remaining = [r for r in remaining if not r.eq(ev)]
+                changed = True
+                break
+    return formula, remaining, subs
 
 
 def _unwrap_truth(c):
